@@ -67,7 +67,11 @@ func genC26(t *rapid.T) c26Case {
 	for i := 0; i < n; i++ {
 		if asleep {
 			// from the awake state a client can sleep again, reconnect or disconnect
-			switch rapid.IntRange(0, 3).Draw(t, "afterwake") {
+			switch rapid.IntRange(0, 4).Draw(t, "afterwake") {
+			case 4:
+				// an awake client may disconnect as well (MQTT-SN 1.2, 6.14): the last call of the script
+				c.Steps = append(c.Steps, c26Step{Call: &clsim.Call{API: "Disconnect"}})
+				return c
 			case 0:
 				st := c26Step{Call: &clsim.Call{API: "Sleep", DurMs: rapid.SampledFrom([]int{1000, 2000, 4000}).Draw(t, "sleep_ms")}, DelayMs: 300}
 				if rapid.Bool().Draw(t, "during") {
@@ -381,7 +385,7 @@ func TestC26(t *testing.T) {
 	vf.Check(t, vf.Prop[c26Case]{
 		ID: "C26", Name: "interop", Bubble: true, DeadlockIsViolation: true,
 		Rule: "real client and real gateway session over a lossless in-memory link with a conforming model broker (which also plays other clients); auth on/off, will on/off; scripts of 3-25 steps: Register, Subscribe (plain, wildcard, short, predefined; QoS 0-2; a fifth of the subscriptions to filters not subscribed yet are refused by the broker), Publish / PublishPredefined (QoS -1..2, short / predefined / registered topics, retain), Unsubscribe, Ping, Sleep (0.5-4 s; a blocking call during which broker publishes are injected), further Sleeps from the awake state, Connect back to active, Disconnect; broker injections of single messages and bursts of 2-5 back-to-back messages on known, predefined, short and not-yet-registered topics under a wildcard (the same new topic several times in a burst, and different ones). Non-trivial = a script with a sleep cycle, a burst on an unregistered topic, or >= 3 different API kinds; distinct by case.",
-		Assumptions: []string{"Publish to a plain name is preceded by Register/Subscribe of that name (the API documents the precondition); after Sleep returns the script continues with Sleep, Connect or nothing (the client is 'awake', not active)",
+		Assumptions: []string{"Publish to a plain name is preceded by Register/Subscribe of that name (the API documents the precondition); after Sleep returns the script continues with Sleep, Connect, Disconnect or nothing (the client is 'awake', not active)",
 			"sleeps stay below RetryDelay so that the C11 known finding (retransmission copies in the wake-up flush) does not interfere",
 			"oracle: every call returns nil (a Subscribe the broker refuses returns an error and changes nothing else); subscriptions and publishes are at the broker model exactly as requested; every injected message that matches a live subscription runs a handler exactly once, with the broker's topic"},
 		Gen: genC26,
